@@ -22,6 +22,12 @@ for rel, ent in sorted(m.items()):
     rows.append('| %s | %s | %s | %s | %s |' % (key, nd.get('change', ''), nd.get('needs', ''), ', '.join(det) or '**none**',
                                                nd.get('strengthening', '')))
 mine = sorted(r for r in m if r.startswith('mutants/'))
+MUTANT_NOTES = {
+    'mutants/C07-4.patch': ' - an equivalent mutant, kept as a reminder: it sets the internal `charge` attribute of every backbone nitrogen '
+                           'to 1 before `--protonate-all` places hydrogens, but the same hydrogens are placed at the same positions and no '
+                           'reported number, written file or log line changes (compared atom by atom and group by group on the twelve '
+                           'example structures with and without the patch: only that attribute differs); silence is the right answer',
+}
 text = ['### 8.1 Seeded changes (independent sub-agents; each passes the 49 pinned tests; demo fails with / passes without the patch)', '',
         '%d changes; %d are reported by the quick check of their own property, %d only by the check of another property '
         '(named in the table), %d by none%s.  "strengthening" says what was added to a check after it had missed the change.' % (
@@ -33,7 +39,8 @@ text += ['', '### 8.2 My own sanity mutants (`mutants/*.patch`)', '',
 for r in mine:
     ent = m[r]
     det = [c for c, x in ent.get('checks', {}).items() if x['exit'] == 1]
-    text.append('* `%s`: pinned tests %s; reported by %s' % (r, ent.get('pinned_tests', 'n/a'), ', '.join(det) or 'none'))
+    text.append('* `%s`: pinned tests %s; reported by %s%s' % (r, ent.get('pinned_tests', 'n/a'), ', '.join(det) or 'none',
+                                                              MUTANT_NOTES.get(r, '')))
 # 8.3 behaviour-preserving refactorings: the false-alarm test
 head = os.popen('git -C /repo rev-parse --short HEAD').read().strip()
 rf = sorted(r for r in m if r.startswith('refactorings/'))
